@@ -1,0 +1,32 @@
+//go:build verif
+
+package ratelimiter
+
+import "time"
+
+// VerifSetClock makes the bucket of host (created if needed) read time from fn.
+func (bm *BucketManager) VerifSetClock(host string, fn func() time.Time) {
+	mb := bm.getBucket(host)
+	mb.bucket.mu.Lock()
+	mb.bucket.nowFunc = fn
+	now := fn()
+	mb.bucket.lastRefill = now
+	mb.bucket.mu.Unlock()
+}
+
+// VerifBucket returns an opaque identity for the bucket currently serving host (nil if none).
+func (bm *BucketManager) VerifBucket(host string) any {
+	bm.mu.Lock()
+	defer bm.mu.Unlock()
+	if mb, ok := bm.buckets[host]; ok {
+		return mb.bucket
+	}
+	return nil
+}
+
+// VerifBucketCount returns the number of resident buckets and the configured bound.
+func (bm *BucketManager) VerifBucketCount() (n, max int) {
+	bm.mu.Lock()
+	defer bm.mu.Unlock()
+	return len(bm.buckets), bm.maxBuckets
+}
